@@ -223,7 +223,9 @@ def run_check(prop, tier, seed):
             jobs.append(j)
             gof[jid] = g
     # expensive groups first so that shards balance
-    order = sorted(range(len(jobs)), key=lambda i: -gof[jobs[i]['id']].get('cost', 1))
+    # expensive groups first; inside a group a fixed pseudo-random order, so that job kinds that
+    # repeat with a period do not pile up on one shard
+    order = sorted(range(len(jobs)), key=lambda i: (-gof[jobs[i]['id']].get('cost', 1), hashlib.sha1(jobs[i]['id'].encode()).hexdigest()))
     jobs = [jobs[i] for i in order]
     flags = ['-timeout', str(spec.get('solver_timeout_ms', 60000 if tier == 'quick' else 300000))]
     if spec.get('partition', True):
